@@ -17,7 +17,8 @@ UNPOP = "old(self.populated) == 0 and old(self.host) is None and old(self.port) 
 
 
 def register(w):
-    w.always_standin["C04"] = [("pygopherd/protocols/wap.py::WAPProtocol.handlerwrite", "the relation between the WML deck and the source document's lines (one line per LF-delimited line) is not expressed by the loop contract")]
+    w.always_standin["C04"] = [("pygopherd/protocols/wap.py::WAPProtocol.handlerwrite", "the relation between the WML deck and the source document's lines (one line per LF-delimited line) is not expressed by the loop contract"),
+                               ("pygopherd/initialization.py::init_mimetypes", "the configured MIME tables live in process-global state of the standard mimetypes module (modelled as an uninterpreted guess_type): that the configured encoding list replaces the built-in one is checked on the real module")]
     # ---- populatefromfs: what an entry learns from the file system ----------------------------------------
     c = w.contracts.pop((GE + "populatefromfs", None))
     w.contract(GE + "populatefromfs",
